@@ -15,6 +15,8 @@
 #include <sys/mman.h>
 
 extern int __lsan_do_recoverable_leak_check(void) __attribute__((weak));
+extern size_t yr_verif_arena_initial_size;   // hooks of the -DYARA_VERIF build (default 0 / 0)
+extern int yr_verif_arena_always_move;
 #ifdef VERIF_COV
 extern void __gcov_dump(void);   // coverage flavour (-DVERIF_COV --coverage): the child leaves through _exit, so flush the counters by hand
 #endif
@@ -23,7 +25,7 @@ typedef struct { int errs, warns, msgok, lineok, l0, l0eof; char first[96]; char
 typedef struct { char* name; char* content; } INC;
 static INC incs[64]; static int nincs;
 static char* units[16]; static int nunits;
-static char opts[16];          // O<letters>: s strict_escape, n include callback NULL (includes disabled), d default (file system) include callback, q atom quality table
+static char opts[16];          // O<letters>: g/i arena growth hooks (always move / 64-byte initial buffers), s strict_escape, n include callback NULL (includes disabled), d default (file system) include callback, q atom quality table
 static char* fname; static char* nspace;   // N<hex> file name given to add_file/add_fd, P<hex> namespace given to every add_*   // further compilation units added to the SAME compiler while no error occurred
 
 static void ccb(int level, const char* file, int line, const YR_RULE* rule, const char* msg, void* ud)
@@ -73,6 +75,9 @@ static void child(char mode, uint8_t* src, size_t len, int rfd)
   static const uint8_t buf[] = "xx needle in a haystack: abcdefgh 0123456789 \x00\x01\x02\xff MZ\x90 verif";
   CB c; memset(&c, 0, sizeof c); c.msgok = 1; c.lineok = 1;
   YR_COMPILER* comp = NULL; YR_RULES* rules = NULL;
+  // growth flavour: every arena allocation moves its buffer (g) / tiny initial buffers (i), so a pointer kept across an allocation is dangling at once
+  if (strchr(opts, 'g')) yr_verif_arena_always_move = 1;
+  if (strchr(opts, 'i')) yr_verif_arena_initial_size = 64;
   if (yr_compiler_create(&comp) != ERROR_SUCCESS) _exit(30);
   yr_compiler_set_callback(comp, ccb, &c);
   if (strchr(opts, 'n')) yr_compiler_set_include_callback(comp, NULL, NULL, NULL);
@@ -117,6 +122,7 @@ static void child(char mode, uint8_t* src, size_t len, int rfd)
   }
   yr_compiler_destroy(comp);
   free(src);
+  yr_verif_arena_always_move = 0; yr_verif_arena_initial_size = 0;
   // follow-up compilation and scan in the same process
   const char* follow = "ok";
   {
